@@ -20,12 +20,19 @@ from histogrammar.defs import ContainerException, Factory, JsonFormatException  
 PRELUDE_STUBS = []
 if SYMBOLIC:
     from crosshair import NoTracing
+    from crosshair.util import CrossHairInternal as _CHInternal
 
     _spec = D.Factory.specialize
 
     def _fast_specialize(self):
-        with NoTracing():
-            return _spec(self)
+        # same code, untraced (10x faster per path); if it does meet a symbolic value after all
+        # (e.g. a bins mapping rebuilt by a comprehension), fall back to the traced run: specialize is idempotent
+        try:
+            with NoTracing():
+                return _spec(self)
+        except _CHInternal:
+            pass
+        return _spec(self)
 
     D.Factory.specialize = _fast_specialize
 
@@ -40,6 +47,8 @@ if SYMBOLIC:
 
 NAN = float("nan")
 INF = float("inf")
+nan = NAN  # counterexample reprs use these names
+inf = INF
 
 # quantity functions on tuple records
 qx = lambda d: d[0]  # noqa: E731
@@ -78,11 +87,41 @@ def _close(a, b):
     return a == b
 
 
+def _exact(a, b):
+    """Structural equality of two JSON-like documents, written as an explicit linear walk: CrossHair's
+    generic Mapping.__eq__ on its dict stand-ins is quadratic and dominated the per-path cost."""
+    if isinstance(a, dict):
+        if not isinstance(b, dict) or len(a) != len(b):
+            return False
+        ia = sorted(a.items(), key=_key)
+        ib = sorted(b.items(), key=_key)
+        for (ka, va), (kb, vb) in zip(ia, ib):
+            if ka != kb:
+                return False
+            if not _exact(va, vb):
+                return False
+        return True
+    if isinstance(a, (list, tuple)):
+        if not isinstance(b, (list, tuple)) or len(a) != len(b):
+            return False
+        for x, y in zip(a, b):
+            if not _exact(x, y):
+                return False
+        return True
+    if isinstance(b, (dict, list, tuple)):
+        return False
+    return a == b
+
+
+def _key(kv):
+    return str(kv[0])
+
+
 def jeq(a, b):
     """JSON-content equality: exact under the symbolic engine (real arithmetic is exact there),
     tolerant of floating-point rounding (rel 1e-9) when a counterexample is replayed concretely."""
     if SYMBOLIC:
-        return a == b
+        return _exact(a, b)
     return _close(a, b)
 
 
